@@ -99,6 +99,7 @@ func (f *BalFlags) closing() bool { return f.Close == nil || *f.Close }
 type FlagOpts struct {
 	NoFilters       bool // C01: nothing hidden
 	NoMapping       bool
+	KeepAll         bool // mappings shorten but never hide (level >= 1), and --remap: nothing leaves the report
 	Valued          bool
 	AlwaysTo        bool
 	NoRemap         bool
@@ -184,9 +185,12 @@ func GenBalFlags(r *simrt.Rand, j *Journal, o FlagOpts) *BalFlags {
 			f.Commodities = append(f.Commodities, "^"+regexp.QuoteMeta(coms[r.Intn(len(coms))])+"$")
 		}
 	}
-	if !o.NoMapping && !o.NoFilters {
+	if !o.NoMapping && (!o.NoFilters || o.KeepAll) {
 		for k := r.Intn(3); k > 0 && r.P(0.6); k-- {
 			m := Mapping{Level: r.Range(0, 3)}
+			if o.KeepAll {
+				m.Level = r.Range(1, 3)
+			}
 			if r.P(0.4) {
 				m.HasSuffix = true
 				m.Suffix = r.Range(0, 2)
